@@ -191,7 +191,10 @@ struct Det {
     n: usize,
     main_waker: Waker,
     helpers: Vec<std::thread::JoinHandle<()>>,
-    // external-loop oracle (implementation only): a wake returned since the loop last looked (run / poll0 / clear)
+    // external-loop oracle (implementation only). `legit`: since the last `run` that reported "nothing hot" (or
+    // since `new`) the runtime side did nothing but `flush`, i.e. the program is a prefix of an iteration of the
+    // compio-compat loop, which would now WAIT on the descriptor. `owed`: a wake returned since that `run`.
+    legit: bool,
     owed: bool,
     // a flush happened since then
     flushed: bool,
@@ -218,7 +221,7 @@ impl Det {
         }
         w.log.lock().unwrap().clear();
         let main_waker = b.rt.waker();
-        Ok(Det { b, w, n, main_waker, helpers: vec![], owed: false, flushed: false, reported: false, drv_name: format!("{drv:?}") })
+        Ok(Det { b, w, n, main_waker, helpers: vec![], legit: true, owed: false, flushed: false, reported: false, drv_name: format!("{drv:?}") })
     }
 
     fn task_waker(&self, t: usize) -> Option<Waker> {
@@ -263,8 +266,7 @@ fn det_op(d: &mut Det, line: &str, ex: &mut Exec) -> String {
         }
         ["poll0"] => match catch(|| d.b.rt.poll_with(Some(Duration::ZERO))) {
             Ok(()) => {
-                d.owed = false;
-                d.flushed = false;
+                d.legit = false;
                 "ok".into()
             }
             Err(e) => format!("panic {e}"),
@@ -275,7 +277,7 @@ fn det_op(d: &mut Det, line: &str, ex: &mut Exec) -> String {
                 d.reported = true;
             }
             // the external loop would now wait on this descriptor without a timeout (nothing hot, flush said idle)
-            if d.owed && d.flushed && !d.reported && !r {
+            if d.legit && d.owed && d.flushed && !d.reported && !r {
                 ex.fail(
                     "C03:external-loop-lost-wake",
                     format!("deterministic program on {}: a wake() returned, no later flush() reported it and the descriptor is not readable: an external loop would block: {}", d.drv_name, line),
@@ -288,8 +290,7 @@ fn det_op(d: &mut Det, line: &str, ex: &mut Exec) -> String {
         }
         ["clear"] => {
             d.b.clear();
-            d.owed = false;
-            d.flushed = false;
+            d.legit = false;
             "ok".into()
         }
         ["twake", t] => {
@@ -317,14 +318,17 @@ fn det_op(d: &mut Det, line: &str, ex: &mut Exec) -> String {
         ["lwake", t] => {
             let Some(wk) = t.parse().ok().and_then(|t: usize| d.task_waker(t)) else { return "bad-op".into() };
             d.b.rt.enter(|| wk.wake_by_ref());
-            // a same-thread wake makes the task hot: `run()` reports it, the loop uses a zero timeout
+            // same-thread wakes happen inside polls, i.e. inside `run`: not a point where the loop waits
+            d.legit = false;
             "ok".into()
         }
         ["run"] => {
             d.w.log.lock().unwrap().clear();
             let hot = d.b.rt.enter(|| d.b.rt.run());
+            d.legit = !hot;
             d.owed = false;
             d.flushed = false;
+            d.reported = false;
             let log = d.w.log.lock().unwrap().clone();
             let l = if log.is_empty() { "-".to_string() } else { log.iter().map(|x| x.to_string()).collect::<Vec<_>>().join(",") };
             format!("polled {l} hot={}", hot as u8)
